@@ -138,7 +138,10 @@ ASSUMPTIONS = [
     'is not spawned again (its history was erased for the triggered flow '
     'only): recognised by member not pooled, launched before the command in '
     'a non-triggered flow F, and a pooled group-start member upstream in '
-    'the group carrying F.',
+    'the group carrying F; at the end the member is not in the pool, or - '
+    'spawned later by another parent that is in the triggered flow alone - '
+    'waits there with exactly the outputs of those merged start members '
+    'unsatisfied.',
     'The recorded root cause "messages of an orphaned job complete the '
     're-spawned proxy" is recognised from the trace alone: outputs credited '
     'to the pooled proxy of the member after the command whose job became '
@@ -715,10 +718,11 @@ def _oracle(sc: SCase, spec, final_pool, paused_end, crashed, viol,
                     and not any(_tg.ev['n0'] <= j < _tg.idx
                                 for j in removes.get(x, ())))
 
-        def merged_old_flows(m, _tg=tg, _fl=fl) -> Set[int]:
+        def merged_old_flows(m, _tg=tg, _fl=fl, parents=None) -> Set[int]:
             """Flows (not triggered ones) in which m was launched before the
             command and which a pooled group-start member upstream of m
-            inside the group carries (explicit --flow=new/N only)."""
+            inside the group carries (explicit --flow=new/N only).
+            `parents` (a set) collects those upstream members."""
             if not _fl or _fl == ['none']:
                 return set()
             ran_in = {f for (i, ev) in launches.get(m, ()) if i < _tg.idx
@@ -732,9 +736,12 @@ def _oracle(sc: SCase, spec, final_pool, paused_end, crashed, viol,
                 seen_up.add(u)
                 bu = _tg.before.get(u)
                 if _tg.start[u] and bu is not None:
-                    out |= {f for f in bu['flows'] if f in ran_in
-                            and not in_flow(_fl, [f], _tg.seen_flows,
-                                            _tg.new_flows)}
+                    old = {f for f in bu['flows'] if f in ran_in
+                           and not in_flow(_fl, [f], _tg.seen_flows,
+                                           _tg.new_flows)}
+                    out |= old
+                    if old and parents is not None:
+                        parents.add(u)
                 todo += [x for (x, _o) in _tg.in_edges[u]]
             return out
 
@@ -1054,6 +1061,20 @@ def _oracle(sc: SCase, spec, final_pool, paused_end, crashed, viol,
                            'C28:member-not-run:prerequisites-unsatisfied')
                     where = (f'in the pool as {fin["status"]} flows='
                              f'{fin["flows"]} sat={fin["sat"]}')
+                    mpar: Set[str] = set()
+                    unsat = {k.rsplit(':', 1)[0]
+                             for k, v in (fin['sat'] or {}).items() if not v}
+                    if (b is None and not fin['prereqs_all']
+                            and fin['status'] == 'waiting'
+                            and merged_old_flows(m, parents=mpar)
+                            and unsat and unsat <= mpar):
+                        # same root cause as below (spawn by the merged
+                        # start parent refused); a parent in the triggered
+                        # flow alone spawned the member later, so that it
+                        # sits in the pool with exactly the merged parents'
+                        # outputs missing
+                        sig = ('C28:member-not-run:start-parent-merged-with-'
+                               'flow-in-which-member-already-ran')
                 viol.append(Violation(
                     sig,
                     f'{m} (before the command: '
